@@ -301,6 +301,12 @@ func features(c Case) []string {
 	if call {
 		f = append(f, "literal-call-text")
 	}
+	for _, t := range s.toks() {
+		if t.K == "lit" && !strings.HasPrefix(t.S, "`") && windowLike.MatchString(t.S) {
+			f = append(f, "literal-window-text")
+			break
+		}
+	}
 	return f
 }
 
